@@ -240,7 +240,26 @@ def cmd_check(args):
     for un in conf.get("units", []):
         res = run_verus(un, tier, seed)
         if "fatal" in res:
-            undecided.append(f"unit {un}: {res['fatal']}")
+            # extraction failed (lost anchor / construct the extractor does not know): the functions concerned have left the
+            # verifier's reach.  Same bounded stand-in as for front-end errors below: probe search on the real code; only a
+            # concrete counterexample is a violation.
+            found_any = False
+            for fl in (res.get("meta") or {}).get("failed", [])[:3]:
+                if pid not in {p_.split(":")[0] for p_ in fl["props"]}:
+                    continue
+                from vxlib import replay as _rp
+                fin = _rp.run_probe(fl["fn_name"])
+                bounded.append({"harness": f"probe::{fl['fn_name']}", "bound": "deterministic probe grid of replay/src (see probe_*.rs)", "status": "failed" if fin else "no counterexample",
+                                "what": f"bounded stand-in: {fl['file']} :: {fl['sel']} could not be extracted ({str(fl['error'])[:120]})"})
+                if fin:
+                    found_any = True
+                    qual = ("<" + fl["sel"].split("::")[0].strip()[5:].strip() + ">::") if fl["sel"].startswith("impl ") else ""
+                    violations.append({"obligation": f"{un}::{qual}{fl['fn_name']}",
+                                       "kind": "function outside the verifier's reach (extraction failed); bounded probe on the real code found a counterexample",
+                                       "where": fl["file"], "code": "", "verifier_output": str(fl["error"])[:400],
+                                       "counterexample": fin, "item": None, "unit": un, "bounded": True})
+            if not found_any:
+                undecided.append(f"unit {un}: {res['fatal']}")
             continue
         checker_cmds.append(res["cmd"])
         meta = res["meta"]
